@@ -547,7 +547,7 @@ def impl(c):
         # the property, without touching any cache: a set private hash must be the from-scratch hash
         for i, nd in enumerate(nodes):
             ch = getattr(nd, "_MerkleNode__hash", None)
-            if ch is not None:
+            if ch:
                 try:
                     want = scratch_real(nd)
                 except RecursionError:
